@@ -29,7 +29,18 @@ EXPLANATION = (
     'drives the suffix dispatch of ref_import_by_extension / ref_export_by_extension / ref_part_metric with file '
     'names shorter than the longest suffix (site by-extension-short-file-name; the out-of-bounds read before the '
     'string was fixed in /repo by commit cdfd7e9, the stream is the regression guard); no Lean obligation is '
-    'attached to it.')
+    'attached to it.  PARALLEL READER (work package partmeshb; Refine/Model/PartMeshb.lean, Props/C20PartMeshb.lean): '
+    'ref_part_by_extension -> ref_part_meshb is modelled with its own validation (rank 0 reads; one checked fread per '
+    'chunk of MAX(1000000, ncell/np) records, then the range check `c2n < 1 || nnode < c2n` on the 1-based values, then '
+    'the decrement).  Proved for every np >= 1, chunk constant and byte string: partCell_accepted_in_range (accepted => '
+    'every vertex of every cell handed to the routing is in [0, nnode) and ref_part_implicit of it is a rank < np), '
+    'partCell_route_in_bounds (so dest never indexes elements_to_send[] / start_to_send[] out of range: the model\'s '
+    '`undefined` outcome of the routing is unreachable), routeChunk_eq_coded (the counting sort as coded equals the '
+    'routing the driver executes, on every input).  Tie: streams partmeshb_c20 (np 1,2,3: index 0, -1, nnode+1, nnode+2, '
+    '2^31-1, 2^32+1 in first / later position of tet / tri / edge records, counts, truncation, dimension / version / '
+    'next-position substitutions, bit flips; C status and, when accepted, the per-rank dump == model) and partmeshb_read '
+    '(np 1..5, valid files).  The two *_counterexample theorems of that file are Lean witnesses of findings/partmeshb-'
+    'count-2pow32-hang and findings/partmeshb-count-int-overflow (declared counts are trusted to size the read buffers).')
 ASSUMPTIONS = [
     'only the binary libMeshb readers (.meshb, .solb scalar and metric) are modelled; ugrid, mapbc, text formats '
     'are not; file-name handling of *_by_extension is exercised (c20_names) but not modelled',
@@ -38,7 +49,16 @@ ASSUMPTIONS = [
     'signed-overflow points of the C (ref_adj_add chunk, nodes[i]--, ldim*chunk) are modelled as `ub`; mutants '
     'reaching them are routed to the hazard streams',
     'metric payload doubles are not mutated (ref_node_metric_set status is the matrix kernel\'s)',
-    'serial readers only (no np=2 placement reader)',
+    'serial readers: Props/C20.lean; the parallel meshb reader: Props/C20PartMeshb.lean (the parallel solb / ugrid '
+    'readers are not modelled)',
+    'parallel meshb reader: when rank 0 returns an error from a rank-0-only section the other ranks are blocked in a '
+    'receive; the harness then prints the status and calls MPI_Abort (what a refmpi main does by returning without '
+    'MPI_Finalize) - "rejected cleanly" means: non-zero status on rank 0, no sanitizer report, no timeout',
+    'parallel meshb reader: declared cell / geometry / byte counts above 1.2e6 are kept out of the generated mutants '
+    '(they size buffers: int overflow of size_per*chunk, endless loop for a count of 2^32 - see findings/partmeshb-*; '
+    'the model returns `ub` / `hang` on them); ref_grid_inward_boundary_orientation, which runs after the reader '
+    'inside ref_part_meshb, is outside the model (the harness dumps the state just before it, by interposing that one '
+    'call in the white-box include of ref_part.c)',
 ]
 TRUSTED = ['harness/h_codec.c child isolation (fork, alarm, wait4 peak RSS)', 'checks/meshio_ref.py mutant factory']
 
